@@ -99,9 +99,12 @@ class DocActions(object):
       # even if triggered by something else within the same useraction).
       if not col.is_formula():
         self._engine.prevent_recalc(col.node, row_ids, should_prevent=True)
-      else:
+      if col.is_formula() or self._engine.is_replaying_doc_actions():
         # Values of a formula column only get set when replaying stored results (undo/redo). That
-        # isn't a change that should fire the trigger formulas that depend on this column.
+        # isn't a change that should fire the trigger formulas that depend on this column. The same
+        # goes for any column while replaying doc actions: what trigger formulas did is part of the
+        # replayed actions (e.g. undoing a type change of a column restores its old values, which
+        # isn't a reason to recalculate trigger formulas that depend on it).
         self._engine.prevent_dependent_trigger_recalc(col.node, row_ids)
 
     # Invalidate the updated rows, just for the columns that got changed (and, as always,
